@@ -197,6 +197,10 @@ func init() {
 		}
 		return strings.Join(outs, "|")
 	}
+	// sigsession: the session ids the signing processes run under (op of C19: real NewSigning + real coordinator)
+	ops["C14.sigsession"] = func(a []string) string { return ops["C19.evmsigsession"](a) }
+	// sigwatch: what the real watchExecution submits after executed-status ticks that precede the signature (op of C03)
+	ops["C14.sigwatch"] = func(a []string) string { return ops["C03.sigwatch"](a) }
 	gens["C14"] = genC14
 }
 
@@ -320,6 +324,16 @@ func genC14(g *G) {
 		g.Emit("exec", "100", "0", "m", joinOr(xs, ";"))
 		g.Emit("submit", "100", "0", joinOr(xs, ";"))
 	}
+	// the ids the signing processes run under, several batches per delivery
+	for _, sp := range []string{"n:p;n:p;n:p", "100:p;n:p", "n:e;n:p;41:p;n:p", "41:p"} {
+		g.Emit("sigsession", "100", "60", []string{"1-2-100-104", "retry-7"}[g.Intn(2)], sp)
+	}
+	// submission after ticks with partly executed batches: proposals and gas limit of the hashed batch, unchanged
+	for _, sc := range []string{"epp", "pep", "ppe", "epe", "epp/eep", "pep/pee", "ppp/epp/eep"} {
+		g.Emit("sigwatch", "evm", "180", "6,8,9", sc)
+	}
+	g.Emit("sigwatch", "evm", "120", "3,7", "ep")
+	g.Emit("sigwatch", "evm", "120", "3,7", "pe")
 	// Execute-level: which batches are hashed/signed and under which session id
 	mids := []string{"1-2-100-104", "m", "retry-1-2-7"}
 	for i := 0; i < g.Count(150, 3000); i++ {
